@@ -227,7 +227,10 @@ let ck_cmd (args : string list) : string =
 (* ---------- LK: openers of one database directory (Misc/Lock.v, variant LockInst.current) ---------- *)
 let lk_state = ref s0
 (* in-process opener ids whose Tree was dropped outside its runtime and whose runtime still exists
-   (the harness keeps that runtime under the same id, whether or not the store had been closed before) *)
+   (the harness keeps that runtime under the same id, whether or not the store had been closed before).
+   With the repaired Tree::drop (F28, LOCK_DETACHED_DROP_CLOSES = true) `dropout` runs the whole
+   drop_detached_ops: the model's lock is free and the opener gone when it answers, `rtgone` changes no
+   model state (do_runtime_gone answers noop; only the harness-side id is given back here). *)
 let lk_zombies : int list ref = ref []
 let lk_opts (s : string) : oopts =
   List.fold_left (fun o kv -> match kv with
@@ -269,7 +272,9 @@ let lk_cmd (args : string list) : string =
       lk_state := do_kill current !lk_state (ni p); r end else "noop"
   | ["pexit"; p] | ["pkill"; p] ->
     if exists (lk_kid p) then begin lk_state := do_kill current !lk_state (ni p); "ok" end else "noop"
-  | ["holder"] ->
+  (* holder: the kernel's lock table now; dropprobe: the same, asked right after a `dropout` (the harness took its
+     probe the instant drop() returned; no model operation lies between the two) *)
+  | ["holder"] | ["dropprobe"] ->
     (match (!lk_state).st_fs.f_lock, (!lk_state).st_flock with
      | LAbsent, _ -> "absent" | _, Some _ -> "held" | _, None -> "free")
   | ["snapshot"] ->
